@@ -635,11 +635,13 @@ struct Slot {
     tag: AtomicUsize,
     start_ms: AtomicU64,
     cases: AtomicU64,
+    /// generation of a case the judge has already found to pass alone (slow, not stuck): not suspected again
+    cleared: AtomicU64,
     buf: std::cell::UnsafeCell<[u8; SLOT_BUF]>,
 }
 unsafe impl Sync for Slot {}
 #[allow(clippy::declare_interior_mutable_const)]
-const SLOT_INIT: Slot = Slot { gen: AtomicU64::new(0), len: AtomicUsize::new(0), tag: AtomicUsize::new(0), start_ms: AtomicU64::new(0), cases: AtomicU64::new(0), buf: std::cell::UnsafeCell::new([0u8; SLOT_BUF]) };
+const SLOT_INIT: Slot = Slot { gen: AtomicU64::new(0), len: AtomicUsize::new(0), tag: AtomicUsize::new(0), start_ms: AtomicU64::new(0), cases: AtomicU64::new(0), cleared: AtomicU64::new(u64::MAX), buf: std::cell::UnsafeCell::new([0u8; SLOT_BUF]) };
 static SLOTS: [Slot; SLOT_N] = [SLOT_INIT; SLOT_N];
 static NEXT_SLOT: AtomicUsize = AtomicUsize::new(0);
 thread_local! {
@@ -715,6 +717,23 @@ fn suspect(id: &str, tier: &str, i: usize, why: &str) {
     eprintln!("[{id}] {why}: input saved to {path}; judging it alone under a CPU-time and a memory limit");
     use std::os::unix::process::CommandExt;
     let exe = std::env::current_exe().expect("current exe");
+    if why == "no-return" {
+        // the run goes on while the judge works: a case that is merely slow on a loaded machine must not end the run
+        let gen = SLOTS[i].gen.load(Ordering::Acquire);
+        match std::process::Command::new(&exe).args([id, "--tier", tier, "--judge-hang", &path]).output() {
+            Ok(o) if o.status.code() == Some(1) => {
+                eprint!("{}", String::from_utf8_lossy(&o.stderr));
+                print!("{}", String::from_utf8_lossy(&o.stdout));
+                std::process::exit(1);
+            }
+            _ => {
+                eprintln!("[{id}] the saved input passes alone: slow on this machine, not stuck; the run continues");
+                SLOTS[i].cleared.store(gen, Ordering::Release);
+                let _ = std::fs::remove_file(&path);
+                return;
+            }
+        }
+    }
     let e = std::process::Command::new(exe).args([id, "--tier", tier, "--judge-hang", &path]).exec();
     println!("INCONCLUSIVE property={id} reason=cannot-start-the-judge ({e})");
     std::process::exit(2);
@@ -807,7 +826,7 @@ pub fn start_watchdog_tier(id: &str, tier: &str, total_budget_s: u64, stall_budg
             // a guarded case that has not returned for a long time, or memory running away while guarded cases are in flight
             let mut oldest: Option<(usize, u64)> = None;
             for (i, s) in SLOTS.iter().enumerate() {
-                if s.len.load(Ordering::Acquire) != 0 {
+                if s.len.load(Ordering::Acquire) != 0 && s.gen.load(Ordering::Acquire) != s.cleared.load(Ordering::Acquire) {
                     let st = s.start_ms.load(Ordering::Relaxed);
                     if oldest.map(|o| st < o.1).unwrap_or(true) {
                         oldest = Some((i, st));
